@@ -623,6 +623,34 @@ def r6_consumers(F, res):
     return table
 
 
+def r7_no_paths_in_output(ctx, res):
+    """What is generated depends on the grammar and the settings, not on where the grammar lies or how its path was spelled:
+    no generated file mentions a directory of the build it came from (CLI with a relative path, CLI with an absolute path and
+    the API from a build script must write the same bytes)."""
+    from . import gen, witness
+    rid = res.rule("C17-R7", "no generated parser or actions file contains a file-system path of the build that produced it (the grammar's "
+                   "directory, the scratch copy, the crate directory)", floor=40)
+    sets = [gen.load_set(ctx.dir("gen-functions"))]
+    try:
+        sets.append([g for _e, g in witness.load(ctx)[0] if g is not None])
+    except Exception:      # noqa - the witness set is an extra
+        pass
+    rx = re.compile(r"(/var/tmp/|/tmp/|/repo/|/home/|/root/|[A-Za-z]:\\\\)[^\s\"']*")
+    for gs in sets:
+        for g in gs:
+            name = (g.name or "").replace("target:", "")
+            for path in (g.parser_path, g.actions_path):
+                if not path or not os.path.exists(path):
+                    continue
+                txt = open(path, errors="replace").read()
+                m = rx.search(txt)
+                if m:
+                    res.violation(rid, "path-in-generated-file", "%s: the generated file contains the path `%s`: the bytes written depend "
+                                  "on where the grammar lies and how its path was given" % (name, m.group(0)[:80]), g.entry.get("parser_file_rel"))
+                    return
+            res.ok(rid, name, g.entry.get("parser_file_rel"))
+
+
 def run(ctx, res):
     F = ctx.facts("core")
     fns = fns_of(F)
@@ -631,6 +659,7 @@ def run(ctx, res):
     r3_statics(F, res)
     side = r5_cli(F, res)
     consumers = r6_consumers(F, res)
+    r7_no_paths_in_output(ctx, res)
     from . import controls
     controls.run(ctx, res, "C17")
     res.extra["functions_analysed"] = len(fns)
